@@ -247,6 +247,7 @@ func c12Bits(m uint32) string {
 }
 
 func c12Judge(c *vCtx, w *c12World, cs c12Case) {
+	c.beat(func() any { return cs })
 	got, _, err := w.eval(cs)
 	c.res.Evaluations++
 	kind := "file"
